@@ -47,6 +47,9 @@ CHECKS = {
  'C16': dict(technique='symbolic execution of the closed-form impedance models, Impedance::operator+= and makeImpedance from LLVM IR with symbolic physical parameters (pow/sqrt/log uninterpreted with sign axioms); z3 decides shape, passivity, formulas and the factory sum',
              text='bounded symbolic verification (partial): every closed-form model returns n samples, exact zeros in the negative-frequency half, non-negative real part; free space == (306.3+176.9i)*pow(i*d,1/3), resistive wall == Z1*sqrt(i*d)*(1-i), collimator == Z0/pi*log(outer/inner) real positive; the factory equals the cell-wise sum of the selected contributions for all 24 switch combinations (parallel-plates model stubbed), nullptr iff none; parallel-plates limits and causality are NOT decided',
              ref='4/C16'),
+ 'C17': dict(technique='allocation-table bounds checking inside the symbolic executor on symbolic runs of the kick kernels, Impedance::operator+=, appendTracks, plus under-constrained symbolic runs of the real file loaders (makePSFromTXT, Impedance::readData, HDF5File::readPhaseSpace) with iostream/HDF5 calls as nondeterministic stubs and uninitialised-stack tracking; z3 decides index ranges',
+             text='bounded symbolic verification for the listed units (not the whole program): displacements anywhere in [-2n,2n] and particles anywhere on the grid never index outside tables/grids; impedance tables shorter or longer than the grid are added in bounds; text loaders index the grid only inside [0,n) for arbitrary file contents and never read an unwritten local on any extraction-failure pattern; the HDF5 start file reader never divides by an empty extent; track output indexes inside the axes',
+             ref='4/C17'),
  'C18': dict(technique='symbolic execution of every call history (wakePotential, padBunchProfiles, updateCSR; length <= 2/3, independent symbolic profiles) from LLVM IR with the FFT as an uninterpreted function of its entire input buffer; term identity with a fresh object decided by z3',
              text='bounded symbolic verification: after every history of up to 2 (quick) / 3 (thorough) calls with arbitrary earlier profiles, each of the three queries returns terms identical to those of the untouched snapshot object, for power-of-two, composite and prime transform lengths and bunch patterns with empty buckets; FFT stub assumptions calibrated natively per configuration',
              ref='4/C18'),
